@@ -80,8 +80,9 @@ class LoopSpec:
     step(ctx, i, ghost) -> ghost          ghost update performed by one iteration (after the body ran)
     """
 
-    def __init__(self, props, init, havoc, inv, step, name="loop", hyps=None, assume=None):
+    def __init__(self, props, init, havoc, inv, step, name="loop", hyps=None, assume=None, index=None, variant=None, instances=None):
         self.props, self.init, self.havoc, self.inv, self.step, self.name = props, init, havoc, inv, step, name
+        self.index, self.variant, self.instances = index, variant, instances
         self.hyps = hyps        # hyps(ctx, i, q) -> extra hypothesis instances (named instances of preconditions / lemmas) for index q
         self.assume = assume    # assume(ctx, i) -> precondition instances needed by the body at iteration i (assumed on the step path)
 
@@ -149,6 +150,7 @@ class Verifier:
         ctx = LoopCtx(self, interp, frame, node, it)
         env = self.env
         if isinstance(node, ast.For):
+            ctx.ghost = None
             if isinstance(it, SymRange):
                 if it.step != 1:
                     raise EngineError("loop cut on stepped range")
@@ -218,7 +220,60 @@ class Verifier:
             if not isinstance(it, (SeqList, ArrList, EnumView)):
                 interp.assign(node.target, elem(b - 1), frame)
             return (None,)
-        raise EngineError("loop cut on while: use WhileSpec")
+        # ---------------------------------------------------------------- while loops
+        # spec.index(ctx) gives the ghost iteration measure the invariant talks about, spec.variant(ctx) a term that must
+        # decrease and stay >= 0.  The loop test itself is evaluated by the interpreter on the havoc'd state.
+        if spec.index is None:
+            raise EngineError("while loop cut needs LoopSpec.index")
+        p = cur()
+        g0 = spec.init(ctx)
+        for item in spec.inv(ctx, spec.index(ctx), g0):
+            if isinstance(item, Forall):
+                prove_forall(env, p, "%s::inv-init:%s" % (name, item.name), item, [], spec.props,
+                             hyps=(lambda q: spec.hyps(ctx, spec.index(ctx), q)) if spec.hyps else None)
+            else:
+                env.ensure("%s::inv-init:%s" % (name, item[0]), item[1], spec.props)
+        p.fresh += 1
+        choose = z3.Bool("cut!%d" % p.fresh)
+        ghost = spec.havoc(ctx)
+        i = spec.index(ctx)
+        facts = []
+        for item in spec.inv(ctx, i, ghost):
+            if isinstance(item, Forall):
+                facts.append(item)
+            else:
+                p.assume(item[1])
+        if p.decide(choose):
+            if not interp.truth(interp.eval(node.test, frame)):
+                raise sym.PathAbort()
+            var0 = spec.variant(ctx) if spec.variant else None
+            if spec.assume:
+                for c in spec.assume(ctx, i):
+                    p.assume(c)
+            self.facts.extend(facts)
+            r = interp.exec_block(node.body, frame)
+            if r is not None:
+                if r[0] == "return":
+                    return (r,)
+                raise EngineError("break/continue inside a cut while loop")
+            g2 = spec.step(ctx, i, ghost)
+            i2 = spec.index(ctx)
+            for item in spec.inv(ctx, i2, g2):
+                if isinstance(item, Forall):
+                    prove_forall(env, p, "%s::inv-step:%s" % (name, item.name), item, list(facts),
+                                 spec.props, hyps=(lambda q: spec.hyps(ctx, i, q)) if spec.hyps else None,
+                                 extra_instances=(lambda q: spec.instances(ctx, i, q)) if getattr(spec, "instances", None) else ())
+                else:
+                    env.ensure("%s::inv-step:%s" % (name, item[0]), item[1], spec.props)
+            if spec.variant:
+                var1 = spec.variant(ctx)
+                env.ensure("%s::variant" % name, And(var1 < var0, var1 >= 0), tuple(spec.props) + ("C13",))
+            raise StopPath()
+        if interp.truth(interp.eval(node.test, frame)):
+            raise sym.PathAbort()
+        self.facts.extend(facts)
+        self.exit_ghost = ghost
+        return (None,)
 
 
 def _zc(c):
